@@ -828,6 +828,7 @@ func init() {
 			}
 			var amp, eq []string
 			var ampPos, eqPos token.Pos
+			sequences := map[ssa.Value]bool{} // the values standing for one raw sequence of a manual cut loop
 			// the strings.* calls of init, looking through module helpers (a local cut(s, sep) for instance)
 			for _, x := range expandCalls(c, f, func(g *ssa.Function) bool { return c.P.InModule(g) }, 2) {
 				{
@@ -861,6 +862,12 @@ func init() {
 					}
 					switch sep {
 					case "&":
+						if cutSeq := cutLoopSequences(call, int64(len(sep))); cutSeq != nil && x.Fn == f {
+							desc = "Split" // a loop that cuts the text at every & is a split on &
+							for _, v := range cutSeq {
+								sequences[v] = true
+							}
+						}
 						amp = append(amp, desc)
 						ampPos = call.Pos()
 					case "=":
@@ -922,10 +929,13 @@ func init() {
 						nSkips++
 						okSkip := false
 						for _, nf := range normFact(iff.Cond, si == 0) {
-							if bo, ok := nf.Cond.(*ssa.BinOp); ok && bo.Op == token.EQL && nf.Val {
+							if bo, ok := nf.Cond.(*ssa.BinOp); ok && ((bo.Op == token.EQL && nf.Val) || (bo.Op == token.NEQ && !nf.Val)) {
 								for _, pr := range [][2]ssa.Value{{bo.X, bo.Y}, {bo.Y, bo.X}} {
 									if k, ok := constString(pr[1]); ok && k == "" {
 										// the raw sequence: an element of the '&' split
+										if sequences[pr[0]] {
+											okSkip = true
+										}
 										if ld, ok := pr[0].(*ssa.UnOp); ok {
 											if ia, ok := ld.X.(*ssa.IndexAddr); ok {
 												if sc, ok := ia.X.(*ssa.Call); ok && sc.Common().StaticCallee() != nil && core.PkgPathOf(sc.Common().StaticCallee()) == "strings" {
@@ -1099,4 +1109,98 @@ func sortedCopy(in []string) []string {
 func lastIf(b *ssa.BasicBlock) (*ssa.If, bool) {
 	iff, ok := b.Instrs[len(b.Instrs)-1].(*ssa.If)
 	return iff, ok
+}
+
+// cutLoopSequences recognises the manual form of a split: idx := strings.Index*(rest, sep) on a string `rest` carried
+// round a loop, where every value `rest` takes for the next round is rest[idx+len(sep):] or "" — i.e. the loop consumes
+// the text separator by separator. It returns the values that stand for one piece (rest[:idx], rest itself when no
+// separator is left, and their merges), or nil if the shape is different.
+func cutLoopSequences(call *ssa.Call, sepLen int64) []ssa.Value {
+	if len(call.Common().Args) < 2 {
+		return nil
+	}
+	rest, ok := call.Common().Args[0].(*ssa.Phi)
+	if !ok {
+		return nil
+	}
+	var okNext func(v ssa.Value, depth int) bool
+	okNext = func(v ssa.Value, depth int) bool {
+		if depth > 3 {
+			return false
+		}
+		if k, ok := constString(v); ok && k == "" {
+			return true
+		}
+		if v == ssa.Value(rest) {
+			return false
+		}
+		switch x := v.(type) {
+		case *ssa.Slice:
+			if x.X != ssa.Value(rest) || x.High != nil || x.Low == nil {
+				return false
+			}
+			t := termOf(x.Low)
+			return t.base == ssa.Value(call) && t.k == sepLen
+		case *ssa.Phi:
+			for _, e := range x.Edges {
+				if !okNext(e, depth+1) {
+					return false
+				}
+			}
+			return len(x.Edges) > 0
+		}
+		return false
+	}
+	back := 0
+	for i, e := range rest.Edges {
+		pred := rest.Block().Preds[i]
+		if !rest.Block().Dominates(pred) {
+			continue // entry edge
+		}
+		back++
+		if !okNext(e, 0) {
+			return nil
+		}
+	}
+	if back == 0 {
+		return nil
+	}
+	// the pieces
+	var out []ssa.Value
+	seen := map[ssa.Value]bool{}
+	var add func(v ssa.Value, depth int)
+	add = func(v ssa.Value, depth int) {
+		if seen[v] || depth > 3 {
+			return
+		}
+		seen[v] = true
+		out = append(out, v)
+		if refs := v.Referrers(); refs != nil {
+			for _, r := range *refs {
+				if phi, ok := r.(*ssa.Phi); ok && phi != rest {
+					// a merge of pieces only
+					all := true
+					for _, e := range phi.Edges {
+						if sl, ok := e.(*ssa.Slice); ok && sl.X == ssa.Value(rest) && sl.Low == nil && sl.High == ssa.Value(call) {
+							continue
+						}
+						if e == ssa.Value(rest) {
+							continue
+						}
+						all = false
+					}
+					if all {
+						add(phi, depth+1)
+					}
+				}
+			}
+		}
+	}
+	for _, r := range *rest.Referrers() {
+		if sl, ok := r.(*ssa.Slice); ok && sl.X == ssa.Value(rest) && sl.Low == nil && sl.High == ssa.Value(call) {
+			add(sl, 0)
+		}
+	}
+	add(rest, 0)
+	return out
 }
